@@ -1674,3 +1674,37 @@ def rule_scanmissing(ctx) -> RuleResult:
                        f"'{norm(c.func)}(…)' is reached with labels that may contain the missing code -1 for func='nancumsum': numpy_groupies rejects negative codes "
                        "(its own ValueError in memory, an IndexError from the carried state of an all-missing block on a chunked array) instead of a refusal by flox")
     return res
+
+
+# ---------------------------------------------------------------------------------------------
+# R-PARTIALUNKNOWN (C08, C12): labels found at compute time are refused for EVERY partial-axis reduction, not for one reduced axis only.
+# With unknown labels each block of the kept dimensions discovers its own label set; the combine along the reduced axes never sees the other
+# kept blocks, and the per-block columns are concatenated as if they meant the same labels (silently wrong values under a truncated label
+# list).  The refusal in groupby_reduce states exactly this belief in its comment; its test must compare the number of reduced axes with the
+# labels' dimensions (nax < by_.ndim / nax != by_.ndim), not with a constant.
+def rule_partialunknown(ctx) -> RuleResult:
+    res = RuleResult("R-PARTIALUNKNOWN", "unknown labels are refused for every reduction over a subset of the label axes", min_instances=1)
+    f = ctx.prog.func("core.groupby_reduce")
+    sites = []
+    for st in walk_own(f.node):
+        if isinstance(st, ast.If) and any(isinstance(b, ast.Raise) for b in st.body):
+            leaves = st.test.values if isinstance(st.test, ast.BoolOp) and isinstance(st.test.op, ast.And) else [st.test]
+            txt = [norm(l) for l in leaves]
+            if any(t.startswith("expected") and t.endswith("is None") for t in txt) and any("nax" in t for t in txt):
+                sites.append((st, leaves))
+    if not sites:
+        res.inst("groupby_reduce: no refusal ties unknown labels (expected groups None) to the number of reduced axes", "refusal")
+        res.report("core.groupby_reduce|partial-reduction-with-unknown-labels-not-refused", f.where(), f.qualname,
+                   "groupby_reduce no longer refuses a partial-axis reduction whose labels are only found at compute time: each kept block discovers its own label "
+                   "set and the columns of different blocks are concatenated as if they were the same labels")
+        return res
+    for st, leaves in sites:
+        nax_leaves = [l for l in leaves if "nax" in names_in(l)]
+        general = any(isinstance(l, ast.Compare) and len(l.ops) == 1 and isinstance(l.ops[0], (ast.Lt, ast.NotEq, ast.LtE)) and "ndim" in norm(l) for l in nax_leaves)
+        res.inst(f"groupby_reduce: refusal '{norm(st.test)[:70]}' covers every nax < ndim: {general}", f"refusal|{st.lineno}")
+        if not general:
+            res.report("core.groupby_reduce|unknown-labels-refused-for-one-axis-only", f.where(st), f.qualname,
+                       f"the refusal '{norm(st.test)[:70]}' fires for a fixed number of reduced axes only; reducing two of three label axes with labels found at compute "
+                       "time and a chunked kept dimension returns the values of different label sets side by side ([[2, 2], [4, 4]] under labels [0, 1] "
+                       "where the answer is [[2, 2, 0], [0, 0, 4]] under [0, 1, 2])")
+    return res
